@@ -7,12 +7,31 @@ deleted / duplicated / swapped, sections are re-pointed; plus raw prefix familie
 arithmetic operand matrix.  Each case: real nvm_deserialize -> nvm_verify -> (accepted and
 import-free) vm_execute under an instruction budget (hook H1), asan+ubsan build, forked with
 bisection.  thorough adds all pairs of operand deviations inside one function.
+
+Function extent (vf/c13lim.py): for every function of every corpus module every code_length from 0
+to its real length + 8 (each byte position: every instruction is cut at every operand byte) combined
+with every code_offset delta in -4..4 (thorough -16..16), on the module as compiled and on a copy
+whose code section is followed by 12 more bytes of valid instructions, so that the bytes after a
+function's end always exist; same oracle (an accepted module never shows the VM an undecodable
+instruction on the verifier's path, no crash / sanitizer report / hang).
+
+Resource limits of the VM at their exact boundary (vf/c13lim.py, probe vf/probes/c13_lim_probe.c, VM
+sources recompiled with -fsanitize=address,undefined,bounds): programs compiled by the tree's own
+nano_virt and hand-built modules that need VM_MAX_FRAMES-3 .. +2 frames through every call-like
+construct separately (CALL, function values / CALL_INDIRECT, CLOSURE_CALL, CALL_MODULE, map / filter /
+reduce, closures, __init__, host re-entry), that fill the operand stack to capacity-2 .. capacity+1
+before each instruction that can deepen it (every doubling of the tier), that touch globals / locals
+at their last and first-invalid index, and that nest values around the printer's depth limit.  Each
+run is judged against a plain Python model of the program: it completes with the model's output
+(mandatory below the limit) or stops with the documented error of that limit after the model's
+output prefix; state invariants (frame_count, top frame, ip range, stack_size) are checked at every
+instruction boundary; the compiler-produced ones also go through the real nano_vm binary.
 """
 import os
 import re
 import struct
 
-from .. import common, corpus, nvmfmt
+from .. import common, corpus, nvmfmt, c13lim
 
 V32 = [0, 1, 0x7F, 0x80, 0xFF, 0x7FFF, 0x8000, 0xFFFF, 0x10000, 0x7FFFFFFF, 0x80000000, 0xFFFFFFFF, 0xFFFFFFFE, 0xFFFFFF00]
 V16 = [0, 1, 0x7F, 0x80, 0xFF, 0x100, 0x7FFF, 0x8000, 0xFFFF]
@@ -227,6 +246,36 @@ def run(tier):
             fh.write("\n".join(m[0] for m in muts) + "\n")
         sets.append((os.path.basename(f), f, mf, [m[1] for m in muts]))
         total += len(muts)
+    # function extents: every length x small offset deltas, as compiled and with code following the last function
+    inv_op = {v[0]: k for k, v in optable.items()}
+    pad = bytes([inv_op["PUSH_I64"]]) + (7).to_bytes(8, "little") + bytes([inv_op["RET"], inv_op["NOP"], inv_op["NOP"]])
+    n_extent = n_padded = 0
+    extent_sample = None
+    for src, f in mods:
+        data = open(f, "rb").read()
+        lay0 = nvmfmt.Layout(data, optable)
+        variants = [("extent", f, data)]
+        if lay0.code_off is not None:
+            code = data[lay0.code_off:lay0.code_off + lay0.code_size]
+            if c13lim.rebuild_with_code(data, code) != data:
+                raise common.HarnessError("re-serialising %s does not reproduce it" % f)
+            pf = f + ".padded.nvm"
+            with open(pf, "wb") as fh:
+                fh.write(c13lim.rebuild_with_code(data, code + pad))
+            variants.append(("extent+pad", pf, open(pf, "rb").read()))
+            n_padded += 1
+        for vlabel, vf_, vdata in variants:
+            ex, _l = c13lim.extent_family(vdata, optable, tier)
+            mf = vf_ + ".extent.mut"
+            with open(mf, "w") as fh:
+                fh.write("\n".join(m[0] for m in ex) + "\n")
+            sets.append((os.path.basename(f) + ":" + vlabel, vf_, mf, [m[1] for m in ex]))
+            total += len(ex)
+            n_extent += len(ex)
+            if ex and extent_sample is None:
+                extent_sample = {"module": os.path.basename(f) + ":" + vlabel, "deviation": ex[len(ex) // 3][1]}
+    if n_padded < len(mods) // 2 or n_extent < 20000:
+        raise common.HarnessError("vacuous extent family: %d cases, %d padded modules" % (n_extent, n_padded))
     # raw + arithmetic families hang off the smallest arithmetic module
     arith_src = os.path.join(work, "arith.nano")
     with open(arith_src, "w") as fh:
@@ -277,6 +326,7 @@ def run(tier):
         for lo in range(0, n, step):
             jobs.append((probe, base, mf, lo, min(n, lo + step), fuel))
     agg = {}
+    ext_agg = {}
     fails = []
     setmap = {mf: (label, base, descs) for label, base, mf, descs in sets}
     done_cases = 0
@@ -288,6 +338,8 @@ def run(tier):
         kv = dict(x.split("=") for x in stat[0].split()[1:])
         for k in ("evaluations", "loaded", "verified", "ran", "ran_ok", "ran_err", "fuel_exhausted", "crashes"):
             agg[k] = agg.get(k, 0) + int(kv[k])
+            if ":extent" in setmap[mf][0]:
+                ext_agg[k] = ext_agg.get(k, 0) + int(kv[k])
         done_cases += hi - lo
         for l in out.splitlines():
             if l.startswith("FAIL"):
@@ -339,8 +391,17 @@ def run(tier):
                                           "sanitizer_report.txt": report[-6000:]},
                       "%s  (%d cases; first: %s: %s)" % (text, len(items), label, desc),
                       "# apply mutation.txt to base.nvm with the probe: nvm_probe c13 base.nvm mutation.txt 0 1 %d" % fuel)
+    # ---- resource limits at their exact boundary (separate probe, Python model as oracle)
+    lim_cov, lim_samples = c13lim.run_limits(rep, tree, tier, work, optable)
+    rep.coverage.update(lim_cov)
+    rep.coverage.update({"extent_cases": n_extent, "extent_modules_with_trailing_code": n_padded,
+                         "extent_loaded": ext_agg.get("loaded", 0), "extent_verifier_accepted": ext_agg.get("verified", 0),
+                         "extent_executed_ok": ext_agg.get("ran_ok", 0), "extent_executed_vm_error": ext_agg.get("ran_err", 0)})
+    if done_cases >= total and not by_sig:
+        if not (0 < ext_agg.get("verified", 0) < ext_agg.get("loaded", 0)) or not ext_agg.get("ran_ok") or not ext_agg.get("ran_err"):
+            raise common.HarnessError("vacuous extent family: outcomes %s" % ext_agg)
     rep.coverage.update({
-        "evaluations": agg.get("evaluations", 0), "distinct_nontrivial": agg.get("loaded", 0),
+        "evaluations": agg.get("evaluations", 0) + lim_cov["limit_cases"], "distinct_nontrivial": agg.get("loaded", 0),
         "rule": "each evaluation is one distinct (module, deviation) element, checksum recomputed; non-trivial = the real loader accepted the mutated image (it got past the checksum and header checks, so verifier and/or VM were exercised)",
         "loaded": agg.get("loaded", 0), "verifier_accepted": agg.get("verified", 0), "executed": agg.get("ran", 0),
         "executed_ok": agg.get("ran_ok", 0), "executed_vm_error": agg.get("ran_err", 0), "fuel_exhausted": agg.get("fuel_exhausted", 0),
@@ -352,9 +413,18 @@ def run(tier):
     rep.sample({"family": "arith", "case": am[7][1]})
     rep.sample({"family": "raw", "case": rm[40][1]})
     rep.sample({"family": "counts", "case": cm[50][1]})
+    rep.coverage["samples"] = rep.coverage["samples"][:4]
+    rep.sample(extent_sample)
+    for sm in lim_samples[:3]:
+        rep.sample(sm)
     rep.assumptions += ["1 deviation per case (thorough: + pairs of operand deviations within a function)", "boundary value pools, not all values",
                         "modules with imports are loaded and verified but not executed (property: 'declares no external imports')",
-                        "malloc failure is emulated by asan allocator_may_return_null for requests > 1 GiB"]
+                        "malloc failure is emulated by asan allocator_may_return_null for requests > 1 GiB",
+                        "function extent: every code_length 0..len+8 x code_offset delta -%d..%d per function, two images per module" % ((4, 4) if tier == "quick" else (16, 16)),
+                        "resource limits: VM_MAX_FRAMES, VM_STACK_INITIAL doublings (%s), VM_MAX_GLOBALS, u16 local_count, VAL_PRINT_MAX_DEPTH; "
+                        "values taken from the tree's own headers; depths limit-3..limit+2 plus controls; Python model of each program is trusted; "
+                        "memory exhaustion (string / array sizes near 2^32, failing realloc) is NOT reached" % ("2" if tier == "quick" else "5"),
+                        "limit oracle state invariants are observed at instruction boundaries only (hook H1)"]
     if done_cases < total:
         rep.exhaustive = False
     if agg.get("ran", 0) < 1000:
